@@ -9,14 +9,19 @@ is a coroutine whose outcome is part of the operation).  Three parts:
      expanded in worker processes (ctx.pmap), canonical forms are deduplicated in the parent.
   Q  for every distinct table configuration reached by S: get_peer for every alphabet id and
      find_close_peers(key, count, sender) against the brute-force reference (refs/routing_ref.py).
-  R  real K = 8: a default fill history (5 prefix classes, 32 adds) and every history that differs from it
-     in <= d edits (d = 1 quick, 2 thorough), the full oracle after every operation.
+  R  real K = 8: a default fill history (5 prefix classes, 32 adds), every history within d single-operation
+     edits of it (d = 1 quick, 2 thorough) and the scaled counterexamples lifted to K = 8; the full oracle
+     after every operation.
 
-A state is the history that reaches it, replayed on fresh real objects.  The canonical form is
-(bucket ranges, bucket contents in order, per-address liveness record ages relative to now), ages above
-CHECK_REFRESH_INTERVAL collapsed (no branch of the code distinguishes them).
+A state is the history that reaches it: every frontier history is replayed from scratch on fresh real objects
+(and must reproduce the canonical digest under which it was discovered); its successors are computed on deep
+copies of those real objects (replaying contacts that differ only in their lowest bits costs ~400 splits per
+replay).  The canonical form is (bucket ranges, bucket contents in order, per-address liveness-record ages
+relative to now), ages above CHECK_REFRESH_INTERVAL collapsed (no branch of the code distinguishes them).
+Every reported violation is re-confirmed by a from-scratch execution of its history.
 """
 import os
+import copy
 import asyncio
 import hashlib
 import pickle
@@ -51,6 +56,7 @@ def contacts_for(own_hex):
     """The contact alphabet for one own id: [(node_id_hex, address, port)]."""
     o = int(own_hex, 16)
     cs = [(i2b(o ^ d).hex(), f'1.2.3.{i + 1}', PORT) for i, d in enumerate(DISTS)]
+    cs[9] = (cs[9][0], cs[8][1], PORT + 1)                         # 9: contact 8's IP, another port
     cs.append((i2b(o ^ (2 ** 383 + 5)).hex(), '1.2.3.1', PORT))   # 10: new id at contact 0's address
     cs.append((cs[0][0], '1.2.9.9', PORT))                         # 11: contact 0's id at a new address
     cs.append((cs[1][0], '1.2.3.4', PORT))                         # 12: contact 1's id at contact 3's address
@@ -67,7 +73,8 @@ def addresses_of(contacts):
 
 def ops_for(contacts, env=True):
     """The operation alphabet, simplest first.  ('add', i, outcome) outcome in a(live) t(imeout) e(rror);
-    ('rm', i); ('rep', a) report_last_replied; ('fail', a) report_failure; ('clk', seconds)."""
+    ('rm', i); ('rep', a) report_last_replied; ('fail', a) report_failure; ('repall',) report_last_replied for
+    every current member (a refresh round that everybody answered); ('clk', seconds)."""
     n = len(contacts)
     ops = [('add', i, 'a') for i in range(n)]
     ops += [('rm', i) for i in range(n)]
@@ -77,7 +84,7 @@ def ops_for(contacts, env=True):
         na = len(addresses_of(contacts))
         ops += [('rep', a) for a in range(na)]
         ops += [('fail', a) for a in range(na)]
-        ops += [('clk', 61), ('clk', 721)]
+        ops += [('repall',), ('clk', 61), ('clk', 721)]
     return ops
 
 
@@ -87,6 +94,7 @@ def ops_for(contacts, env=True):
 # and an extra frame per level would push the real code over the interpreter's recursion limit)
 
 _INST = {}
+EVENTS = collections.Counter()
 
 
 def install(K):
@@ -103,6 +111,44 @@ def install(K):
                              constants.K if capacity is None else capacity)
     rt.KBucket = ScaledKBucket
     _INST['done'] = True
+    _watch(rt.TreeRoutingTable)
+
+
+def _watch(T):
+    """Count split / join events for the coverage witnesses with sys.monitoring (PY_START on the two code
+    objects): the callback runs and returns before the function body starts, so it never adds a frame to the
+    recursion of the code under test and cannot change its behaviour."""
+    import sys
+    mon = getattr(sys, 'monitoring', None)
+    split = getattr(getattr(T, '_split_bucket', None), '__code__', None)
+    join = getattr(getattr(T, '_join_buckets', None), '__code__', None)
+    if mon is None or split is None or join is None:
+        return
+    tool = 4
+    try:
+        mon.use_tool_id(tool, 'c11-witness')
+    except ValueError:
+        return
+
+    def on_start(code, offset):
+        try:
+            if code is split:
+                EVENTS['split'] += 1
+            elif code is join:
+                bs = sys._getframe(1).f_locals['self'].buckets
+                n = len(bs)
+                if n > 1:
+                    for i, b in enumerate(bs):
+                        if len(b.peers) == 0:
+                            EVENTS['join'] += 1
+                            if 0 < i < n - 1:
+                                EVENTS['join_both_neighbours'] += 1
+                            break
+        except Exception:   # noqa - a witness counter must never disturb the execution
+            pass
+    mon.register_callback(tool, mon.events.PY_START, on_start)
+    mon.set_local_events(tool, split, mon.events.PY_START)
+    mon.set_local_events(tool, join, mon.events.PY_START)
 
 
 _PEER_CACHE = {}
@@ -118,7 +164,7 @@ def peers_for(contacts):
     return ps
 
 
-Rec = collections.namedtuple('Rec', 'op before after snap result exc probed before_snap')
+Rec = collections.namedtuple('Rec', 'op before after snap result exc probed events')
 
 
 class Exec:
@@ -136,16 +182,32 @@ class Exec:
         self.index = {p: i for i, p in enumerate(self.peers)}
         self.addrs = addresses_of(contacts)
         self.loop = VLoop().activate()
+        self.vtime = T0
         self.loop._vtime = T0
         self.pm = PeerManager(self.loop)
         self.table = rt.TreeRoutingTable(self.loop, self.pm, self.own)
         # mirror of the liveness records, kept by the harness from the history alone
         self.replied = {}
         self.failures = {}
-        self.nops = 0
+        self.forked = False
 
     def close(self):
-        self.loop.shutdown()
+        if not self.forked:
+            self.loop.shutdown()
+
+    def fork(self):
+        """Deep copy of the real objects (table, buckets, peer manager); the loop and the immutable contact
+        objects are shared.  Forks of one base must be used one after the other (they share the loop)."""
+        memo = {id(self.loop): self.loop}
+        for p in self.peers:
+            memo[id(p)] = p
+        f = object.__new__(Exec)
+        f.__dict__.update(self.__dict__)
+        f.table, f.pm = copy.deepcopy((self.table, self.pm), memo)
+        f.replied = dict(self.replied)
+        f.failures = dict(self.failures)
+        f.forked = True
+        return f
 
     # -- observation ---------------------------------------------------------------------------
     def snapshot(self):
@@ -161,7 +223,7 @@ class Exec:
         return tuple((lo, hi, tuple(ix[p] for p in ps)) for lo, hi, ps in snap)
 
     def pm_canon(self):
-        now = self.loop.time()
+        now = self.vtime
         out = []
         for a in self.addrs:
             r = self.replied.get(a)
@@ -177,8 +239,11 @@ class Exec:
         return tuple(out)
 
     def digests(self, snap=None):
+        """-> (digest of the full canonical state, digest of the table configuration = bucket ranges and
+        bucket member sets, which is all the query oracle can depend on)"""
         tc = self.table_canon(snap)
-        td = hashlib.blake2b(repr(tc).encode(), digest_size=12).digest()
+        qc = tuple((lo, hi, tuple(sorted(ix))) for lo, hi, ix in tc)
+        td = hashlib.blake2b(repr(qc).encode(), digest_size=12).digest()
         fd = hashlib.blake2b(repr((tc, self.pm_canon())).encode(), digest_size=16).digest()
         return fd, td
 
@@ -186,11 +251,14 @@ class Exec:
     def apply(self, op):
         from vf.vloop import Deadlock, Horizon
         from lbry.dht.error import RemoteException
-        before_snap = self.snapshot()
-        before = self.members_of(before_snap)
         kind = op[0]
+        if kind not in ('add', 'rm', 'rep', 'fail', 'repall', 'clk'):
+            raise ValueError(f'unknown op {op!r}')
+        loop = self.loop
+        loop._vtime = self.vtime
+        before = self.members_of(self.snapshot())
+        EVENTS.clear()
         result, exc, probed = None, None, []
-        self.nops += 1
         try:
             if kind == 'add':
                 outcome = op[2]
@@ -202,34 +270,32 @@ class Exec:
                         raise asyncio.TimeoutError()
                     if outcome == 'e':
                         raise RemoteException('remote error')
-                result = self.loop.run(self.table.add_peer(self.peers[op[1]], probe), max_steps=100000)
+                result = loop.run(self.table.add_peer(self.peers[op[1]], probe), max_steps=100000)
             elif kind == 'rm':
                 self.table.remove_peer(self.peers[op[1]])
             elif kind == 'rep':
                 a = self.addrs[op[1]]
                 self.pm.report_last_replied(*a)
-                self.replied[a] = self.loop.time()
+                self.replied[a] = loop.time()
             elif kind == 'fail':
                 a = self.addrs[op[1]]
                 self.pm.report_failure(*a)
                 prev = self.failures.get(a)
-                self.failures[a] = (prev[1] if prev else None, self.loop.time())
-            elif kind == 'clk':
-                self.loop.advance(op[1])
+                self.failures[a] = (prev[1] if prev else None, loop.time())
+            elif kind == 'repall':
+                for p in before:
+                    self.pm.report_last_replied(p.address, p.udp_port)
+                    self.replied[(p.address, p.udp_port)] = loop.time()
             else:
-                raise AssertionError(f'unknown op {op!r}')
-        except (Deadlock, Horizon, AssertionError) as e:
-            if isinstance(e, AssertionError) and kind != 'add' and kind != 'rm':
-                raise
-            if isinstance(e, (Deadlock, Horizon)):
-                raise
-            exc = e      # an assert inside lbry code is an exception of the operation
-        except RecursionError as e:
-            exc = e
+                loop.advance(op[1])
+        except (Deadlock, Horizon):
+            raise                # the harness, not the property
         except Exception as e:   # noqa - judged by the property ("no exception from any operation")
             exc = e
+            loop._ready.clear()
+        self.vtime = loop._vtime
         snap = self.snapshot()
-        return Rec(op, before, self.members_of(snap), snap, result, exc, probed, before_snap)
+        return Rec(op, before, self.members_of(snap), snap, result, exc, probed, dict(EVENTS))
 
 
 # ------------------------------------------------------------------------------------------------
@@ -348,19 +414,12 @@ def judge(ex, rec, tally):
 
 def witnesses(ex, rec, w):
     """non-vacuity facts of one transition; w(name)"""
-    # splits and joins are read off the bucket boundaries (a boundary that appears = a split survived the
-    # operation; an interior bucket whose both boundaries vanish while a new boundary appears inside it = a
-    # join where both neighbours absorbed it)
-    b0 = {lo for lo, _, _ in rec.before_snap}
-    b1 = {lo for lo, _, _ in rec.snap}
-    if b1 - b0:
-        w('split')
-    if b0 - b1:
-        w('join')
-        for lo, hi, _ in rec.before_snap[1:-1]:
-            if lo not in b1 and hi not in b1 and any(lo < x < hi for x in b1 - b0):
-                w('join_both_neighbours')
-                break
+    ev = rec.events
+    for name in ('split', 'join', 'join_both_neighbours'):
+        if ev.get(name):
+            w(name)
+    if ev.get('split', 0) >= 100:
+        w('split_chain_100_deep')
     op = rec.op
     if op[0] == 'add' and rec.exc is None:
         new = ex.peers[op[1]]
@@ -385,21 +444,28 @@ def witnesses(ex, rec, w):
         w('remove_member')
 
 
+_KEYS_CACHE = {}
+
+
 def query_keys(ex):
-    keys = []
-    for n, _, _ in ex.contacts:
-        x = int(n, 16)
-        for k in (x - 1, x, x + 1):
-            kb = i2b(k % FULL)
+    ck = (ex.own, tuple(ex.contacts))
+    keys = _KEYS_CACHE.get(ck)
+    if keys is None:
+        keys = []
+        for n, _, _ in ex.contacts:
+            x = int(n, 16)
+            for k in (x - 1, x, x + 1):
+                kb = i2b(k % FULL)
+                if kb not in keys:
+                    keys.append(kb)
+        for kb in (ex.own, i2b(0), i2b(FULL - 1)):
             if kb not in keys:
                 keys.append(kb)
-    for kb in (ex.own, i2b(0), i2b(FULL - 1)):
-        if kb not in keys:
-            keys.append(kb)
+        _KEYS_CACHE[ck] = keys
     return keys
 
 
-def state_oracle(ex, count_eval):
+def state_oracle(ex, count_eval, all_senders=True):
     """get_peer membership and closest-K exactness on the current state -> [(signature, what)]"""
     from refs import routing_ref as ref
     out = []
@@ -429,7 +495,8 @@ def state_oracle(ex, count_eval):
     # closest-K
     ids = [p.node_id for p in members]
     non_members = [b for b in probe_ids if b not in by_id and b != ex.own]
-    senders = [(None, 'none')] + [(i, 'member') for i in ids] + [(b, 'non-member') for b in non_members[:1]]
+    msend = ids if all_senders else ids[:1] + ids[-1:]
+    senders = [(None, 'none')] + [(i, 'member') for i in msend] + [(b, 'non-member') for b in non_members[:1]]
     counts = [(None, 'None'), (1, '1'), (K, 'K'), (K + 1, 'K+1')]
     keys = query_keys(ex)
     for sender, sclass in senders:
@@ -468,22 +535,40 @@ def state_oracle(ex, count_eval):
 
 
 # ------------------------------------------------------------------------------------------------
-# configurations
+# configurations, histories
+
+_CFG_CACHE = {}
+
 
 def cfg_contacts(cfg):
-    return cfg.get('contacts') or contacts_for(cfg['own'])
+    c = cfg.get('contacts')
+    if c is not None:
+        return [tuple(x) for x in c]
+    key = ('c', cfg['own'], cfg.get('real', False))
+    if key not in _CFG_CACHE:
+        _CFG_CACHE[key] = real_contacts(cfg['own']) if cfg.get('real') else contacts_for(cfg['own'])
+    return _CFG_CACHE[key]
 
 
 def cfg_ops(cfg):
-    if 'ops' in cfg:
-        return [tuple(o) for o in cfg['ops']]
-    return ops_for(cfg_contacts(cfg), env=cfg.get('env', True))
+    subset = tuple(cfg['subset']) if cfg.get('subset') else None
+    key = ('o', cfg['own'], cfg.get('env', True), subset)
+    if key not in _CFG_CACHE:
+        contacts = cfg_contacts(cfg)
+        ops = ops_for(contacts, env=cfg.get('env', True))
+        if subset is not None:
+            # a sub-alphabet: only the listed contacts and the reports about their addresses
+            addrs = addresses_of(contacts)
+            mine = {addrs.index((contacts[i][1], contacts[i][2])) for i in subset}
+            ops = [o for o in ops if (o[0] in ('add', 'rm') and o[1] in subset)
+                   or (o[0] in ('rep', 'fail') and o[1] in mine) or o[0] in ('repall', 'clk')]
+        _CFG_CACHE[key] = ops
+    return _CFG_CACHE[key]
 
 
 def enabled(cfg, ex, op):
     """Alphabet restriction (a stated bound, not an oracle): liveness reports are issued only for addresses
-    of current table members (every other report commutes with the operations before the contact's next add,
-    see DESIGN note in run())."""
+    of current table members."""
     if cfg.get('reports') == 'members' and op[0] in ('rep', 'fail'):
         a = ex.addrs[op[1]]
         return any((p.address, p.udp_port) == a for b in ex.table.buckets for p in b.peers)
@@ -491,6 +576,8 @@ def enabled(cfg, ex, op):
 
 
 def replay_history(cfg, hist_ops):
+    """fresh objects, the history applied; an exception inside a prefix is a harness error (violating states
+    are never expanded)"""
     ex = Exec(cfg['K'], cfg['own'], cfg_contacts(cfg))
     for op in hist_ops:
         rec = ex.apply(op)
@@ -500,32 +587,94 @@ def replay_history(cfg, hist_ops):
     return ex
 
 
+def first_violations(cfg, hist_ops, res=None, queries='every', all_senders=True, wprefix=''):
+    """Execute one history from scratch with the full oracle after every operation.
+    -> (step, [(sig, what)]) of the first failing step, or (None, [])."""
+    ex = Exec(cfg['K'], cfg['own'], cfg_contacts(cfg))
+    try:
+        for step, op in enumerate(hist_ops):
+            rec = ex.apply(op)
+            if res is not None:
+                res.count('transitions')
+                witnesses(ex, rec, lambda n: res.witness(wprefix + n))
+            bad = judge(ex, rec, res.tally if res is not None else (lambda n: None))
+            if not bad and (queries == 'every' or (queries == 'last' and step == len(hist_ops) - 1)):
+                bad = state_oracle(ex, (lambda: res.count('evaluations')) if res is not None else (lambda: None),
+                                   all_senders)
+                if res is not None:
+                    res.count('query_states')
+            if bad:
+                return step + 1, bad
+            if res is not None and wprefix:
+                res.setmax(wprefix + 'buckets', len(rec.snap))
+                res.setmax(wprefix + 'contacts_in_table', len(rec.after))
+        return None, []
+    finally:
+        ex.close()
+
+
 def replay_data(cfg, hist_ops, part):
     return {'part': part, 'K': cfg['K'], 'own': cfg['own'], 'contacts': [list(c) for c in cfg_contacts(cfg)],
             'ops': [list(o) for o in hist_ops]}
 
 
+def fmt_ops(hops):
+    out = []
+    for o in hops:
+        if o[0] == 'add':
+            out.append('add(c%d,%s)' % (o[1], {'a': 'alive', 't': 'timeout', 'e': 'error'}[o[2]]))
+        elif o[0] == 'rm':
+            out.append(f'rm(c{o[1]})')
+        elif o[0] == 'clk':
+            out.append(f'clk(+{o[1]})')
+        elif o[0] == 'repall':
+            out.append('repall()')
+        else:
+            out.append(f'{o[0]}(addr{o[1]})')
+    return ' '.join(out)
+
+
+def observe(cfg, hops):
+    """observation log of one history (for the determinism self-check, samples and replays)"""
+    ex = Exec(cfg['K'], cfg['own'], cfg_contacts(cfg))
+    log = []
+    for op in hops:
+        rec = ex.apply(op)
+        log.append(f'{fmt_ops([op])} -> result={rec.result!r} exc={type(rec.exc).__name__ if rec.exc else None} '
+                   f'probed={[ex.index[p] for p in rec.probed]} '
+                   f'buckets={[(hex(lo)[:9], hex(hi)[:9], [ex.index[p] for p in ps]) for lo, hi, ps in rec.snap]} '
+                   f'digest={ex.digests(rec.snap)[0].hex()}')
+        if rec.exc is not None:
+            break
+    ex.close()
+    return log or ['(empty history)']
+
+
 # ------------------------------------------------------------------------------------------------
-# workers
+# workers (part S and Q)
 
 def w_expand(item, res):
     """Expand a chunk of frontier histories: every enabled operation applied to every history."""
     cfg, hists, outpath = item
     ops = cfg_ops(cfg)
     succ, viols = [], []
-    for hi, h in enumerate(hists):
+    for hi, (h, expect_fd) in enumerate(hists):
         hops = [ops[i] for i in h]
         base = replay_history(cfg, hops)
+        res.count('scratch_replays')
+        res.count('op_invocations', len(hops))
         src_fd, _ = base.digests()
-        en = [oi for oi, op in enumerate(ops) if enabled(cfg, base, op)]
-        base.close()
-        for oi in en:
-            op = ops[oi]
-            ex = replay_history(cfg, hops)
+        if expect_fd is not None and src_fd != expect_fd:
+            res.error(f'{cfg["name"]}: history {fmt_ops(hops)} replayed from scratch reaches a different canonical '
+                      f'state than the deep copy it was discovered on')
+        for oi, op in enumerate(ops):
+            if not enabled(cfg, base, op):
+                continue
+            ex = base.fork()
             rec = ex.apply(op)
             res.count('transitions')
             res.count('executions')
-            res.count('op_invocations', len(hops) + 1)
+            res.count('op_invocations')
             bad = judge(ex, rec, res.tally)
             witnesses(ex, rec, res.witness)
             if bad:
@@ -539,7 +688,7 @@ def w_expand(item, res):
                     succ.append((hi, oi, fd, td))
                 res.setmax('buckets', len(rec.snap))
                 res.setmax('contacts_in_table', len(rec.after))
-            ex.close()
+        base.close()
     with open(outpath, 'wb') as f:
         pickle.dump((succ, viols), f, protocol=4)
 
@@ -549,15 +698,12 @@ def w_query(item, res):
     cfg, hists, outpath = item
     ops = cfg_ops(cfg)
     viols = []
-
-    def ce():
-        res.count('evaluations')
     for h in hists:
         hops = [ops[i] for i in h]
         ex = replay_history(cfg, hops)
-        res.count('executions')
+        res.count('scratch_replays')
         res.count('query_states')
-        for sig, what in state_oracle(ex, ce):
+        for sig, what in state_oracle(ex, lambda: res.count('evaluations')):
             viols.append((len(h), h, sig, what))
         ex.close()
     with open(outpath, 'wb') as f:
@@ -565,7 +711,9 @@ def w_query(item, res):
 
 
 def w_item(item, res):
+    import time
     kind = item[0]
+    t0 = time.perf_counter()
     if kind == 'X':
         w_expand(item[1:], res)
     elif kind == 'Q':
@@ -574,6 +722,9 @@ def w_item(item, res):
         w_real(item[1:], res)
     else:
         raise AssertionError(kind)
+    dt = time.perf_counter() - t0
+    res.count(f'worker_ms_{kind}', int(dt * 1000))
+    res.setmax(f'worker_item_max_s_{kind}', round(dt, 2))
 
 
 # ------------------------------------------------------------------------------------------------
@@ -603,29 +754,42 @@ def real_contacts(own_hex):
     return cs
 
 
-def real_default(contacts):
-    """default fill order: round robin over the three big classes, the two singletons after round 3"""
-    order = []
-    idx = {}
-    k = 0
+def real_classes():
+    idx, k = {}, 0
     for c, n in R_CLASSES:
         idx[c] = list(range(k, k + n))
         k += n
+    return idx, k
+
+
+def real_default():
+    """default fill order: round robin over the three big classes, the two singletons after round 4"""
+    idx, _ = real_classes()
+    order = []
     for j in range(10):
         for c in (0, 1, 2):
             order.append(('add', idx[c][j], 'a'))
         if j == 3:
             order.append(('add', idx[3][0], 'a'))
             order.append(('add', idx[4][0], 'a'))
-    return order, idx
+    return order
 
 
-def real_edits(contacts, default, idx, thorough):
-    """single edits of the default history: (position, kind, op).  kind: 'sub' replace op at position,
+def real_lifted():
+    """the scaled counterexamples lifted to K = 8 (F5: a bucket between two populated neighbours is emptied;
+    then the contact at distance midpoint-1 is added and looked up)"""
+    idx, _ = real_classes()
+    f5 = [('add', i, 'a') for i in idx[0][:8]] + [('add', i, 'a') for i in idx[2][:8]]
+    f5 += [('add', idx[1][0], 'a'), ('rm', idx[1][0]), ('add', idx[1][4], 'a'), ('add', idx[1][3], 'a')]
+    return [('lifted-F5', f5)]
+
+
+def real_edits(contacts, default, thorough):
+    """single edits of the default history: (position, kind, op).  kind: 'sub' replace the op at position,
     'del' delete it, 'ins' insert before position (position == len(default): append)."""
+    idx, nreal = real_classes()
     edits = []
     n = len(default)
-    nreal = sum(k for _, k in R_CLASSES)
     addrs = addresses_of(contacts)
     for pos in range(n + 1):
         if pos < n:
@@ -645,7 +809,7 @@ def real_edits(contacts, default, idx, thorough):
                 a = addrs.index((contacts[mine[0]][1], contacts[mine[0]][2]))
                 ins.append(('rep', a))
                 ins.append(('fail', a))
-        ins += [('clk', 61), ('clk', 721)]
+        ins += [('repall',), ('clk', 61), ('clk', 721)]
         for i in range(nreal, len(contacts)):
             ins.append(('add', i, 'a'))
             if thorough:
@@ -655,65 +819,160 @@ def real_edits(contacts, default, idx, thorough):
     return edits
 
 
-def apply_edits(default, edits):
-    """edits sorted by position; at most one edit per position class is combined"""
+def ops_at(default, pos, edits):
+    """operations emitted for one position of the default history under the edits that sit at that position
+    (insertions in the order given, then the possibly replaced / deleted default operation)"""
     out = []
-    by_pos = collections.defaultdict(list)
-    for e in edits:
-        by_pos[e[0]].append(e)
-    for pos in range(len(default) + 1):
-        cur = default[pos] if pos < len(default) else None
-        for _, kind, op in by_pos.get(pos, ()):
-            if kind == 'ins':
-                out.append(op)
-        subs = [e for e in by_pos.get(pos, ()) if e[1] in ('sub', 'del')]
-        if subs:
-            kind, op = subs[-1][1], subs[-1][2]
-            cur = op if kind == 'sub' else None
-        if cur is not None:
-            out.append(cur)
+    cur = default[pos] if pos < len(default) else None
+    for p, kind, op in edits:
+        if p != pos:
+            continue
+        if kind == 'ins':
+            out.append(tuple(op))
+        elif kind == 'sub':
+            cur = tuple(op)
+        else:
+            cur = None
+    if cur is not None:
+        out.append(cur)
     return out
 
 
-def run_real_history(cfg, hist_ops, res, query_every_step=False):
-    """full oracle after every operation -> list of (step, sig, what)"""
-    ex = Exec(cfg['K'], cfg['own'], cfg_contacts(cfg))
-    viols = []
+def apply_edits(default, edits, start=0):
+    """the default history (from position `start`) with a set of edits applied"""
+    out = []
+    for pos in range(start, len(default) + 1):
+        out += ops_at(default, pos, edits)
+    return out
 
-    def ce():
-        res.count('evaluations')
-    for step, op in enumerate(hist_ops):
+
+_QMEMO = set()
+
+
+def real_steps(cfg, ex, ops, res, queries):
+    """apply ops to ex with the full transition oracle after every operation; closest-K / get_peer queries after
+    every operation (queries='every') or on the final state, once per distinct final table configuration and
+    worker (queries='last').  -> (number of ops applied, [(sig, what)])"""
+    for step, op in enumerate(ops):
         rec = ex.apply(op)
         res.count('transitions')
         res.count('op_invocations')
-        bad = judge(ex, rec, res.tally)
         witnesses(ex, rec, lambda n: res.witness('k8_' + n))
-        if not bad and (query_every_step or step == len(hist_ops) - 1):
-            bad = state_oracle(ex, ce)
-            res.count('query_states')
+        bad = judge(ex, rec, res.tally)
+        if not bad and (queries == 'every' or (queries == 'last' and step == len(ops) - 1)):
+            key = (cfg['own'], ex.digests(rec.snap)[1])
+            if queries == 'every' or key not in _QMEMO:
+                _QMEMO.add(key)
+                res.count('query_states')
+                bad = state_oracle(ex, lambda: res.count('evaluations'), all_senders=False)
         if bad:
-            viols = [(step + 1, sig, what) for sig, what in bad]
-            break
+            return step + 1, bad
         res.setmax('k8_buckets', len(rec.snap))
         res.setmax('k8_contacts_in_table', len(rec.after))
+    return len(ops), []
+
+
+def run_real(cfg, hist, res, queries):
+    """one K=8 history from scratch -> [(history prefix, sig, what)]"""
+    ex = Exec(cfg['K'], cfg['own'], cfg_contacts(cfg))
+    try:
+        n, bad = real_steps(cfg, ex, hist, res, queries)
+    finally:
+        ex.close()
     res.count('executions')
-    ex.close()
-    return viols
+    res.count('k8_histories')
+    return [(tuple(hist[:n]), sig, what) for sig, what in bad]
+
+
+def pair_partners(edits, i):
+    """second edits combined with edits[i]: every later edit, and for two insertions at the same position both
+    orders and the same insertion twice; two replacements of one operation are one replacement"""
+    e1 = edits[i]
+    out = collections.defaultdict(list)
+    for j, e2 in enumerate(edits):
+        if e2[0] < e1[0]:
+            continue
+        if e2[0] == e1[0]:
+            both_ins = e1[1] == 'ins' and e2[1] == 'ins'
+            if not both_ins and (j <= i or (e1[1] != 'ins' and e2[1] != 'ins')):
+                continue
+        elif j <= i:
+            continue
+        out[e2[0]].append(e2)
+    return out
+
+
+def run_real_pairs(cfg, default, edits, i, res):
+    """every history with the two edits (edits[i], e2): the history with edits[i] alone is executed once from
+    scratch; before each position >= its own the execution is forked (deep copy) for every partner edit at that
+    position and the remainder is run on the fork"""
+    e1 = edits[i]
+    partners = pair_partners(edits, i)
+    ex = Exec(cfg['K'], cfg['own'], cfg_contacts(cfg))
+    done = []
+    out = []
+    try:
+        for pos in range(len(default) + 1):
+            if pos >= e1[0]:
+                for e2 in partners.get(pos, ()):
+                    es = (e1, e2) if pos == e1[0] else (e2,)
+                    rem = apply_edits(default, es, start=pos)
+                    f = ex.fork()
+                    n, bad = real_steps(cfg, f, rem, res, 'last')
+                    res.count('executions')
+                    res.count('k8_histories')
+                    for sig, what in bad:
+                        out.append((tuple(done + rem[:n]), sig, what))
+            here = ops_at(default, pos, (e1,))
+            n, bad = real_steps(cfg, ex, here, res, 'none')
+            done += here[:n]
+            if bad:
+                break        # reported by the single-edit run of edits[i]
+    finally:
+        ex.close()
+    return out
 
 
 def w_real(item, res):
-    cfg, edit_sets, outpath = item
-    contacts = cfg_contacts(cfg)
-    default, idx = real_default(contacts)
+    cfg, work, outpath = item
+    default = real_default()
+    edits = None
     viols = []
-    for es in edit_sets:
-        hist = apply_edits(default, es)
-        bad = run_real_history(cfg, hist, res, query_every_step=len(es) <= 1)
-        res.distinct_add('k8_histories', (cfg['own'], tuple(hist)))
-        for step, sig, what in bad:
-            viols.append((step, tuple(hist[:step]), sig, what))
+    for w in work:
+        if w[0] == 'edits':
+            found = run_real(cfg, apply_edits(default, w[1]), res, 'every' if len(w[1]) == 0 else 'last')
+        elif w[0] == 'lifted':
+            found = run_real(cfg, [tuple(o) for o in w[1]], res, 'every')
+        else:
+            if edits is None:
+                edits = real_edits(cfg_contacts(cfg), default, True)
+            found = run_real_pairs(cfg, default, edits, w[1], res)
+        for h, sig, what in found:
+            viols.append((len(h), h, sig, what))
     with open(outpath, 'wb') as f:
         pickle.dump(([], viols), f, protocol=4)
+
+
+def real_items_for(ctx, outpath):
+    thorough = not ctx.quick
+    items = []
+    meta = {'K': 8, 'max_edits': 2 if thorough else 1, 'histories': 0, 'own_ids_single_edits': 3,
+            'own_ids_double_edits': 1 if thorough else 0}
+    default = real_default()
+    meta['default_history_ops'] = len(default)
+    for oi, own in enumerate(OWN_IDS):
+        cfg = {'name': f'K8-own{oi}', 'K': 8, 'own': own, 'real': True}
+        edits = real_edits(cfg_contacts(cfg), default, thorough)
+        meta['single_edits'] = len(edits)
+        work = [('edits', ())] + [('lifted', h) for _, h in real_lifted()] + [('edits', (e,)) for e in edits]
+        meta['histories'] += len(work)
+        for part in _chunks(work, 40):
+            items.append(('R', cfg, part, outpath(), oi))
+        if thorough and oi == 2:
+            for i in range(len(edits)):
+                meta['histories'] += sum(len(v) for v in pair_partners(edits, i).values())
+                items.append(('R', cfg, [('pairs', i)], outpath(), oi))
+    return items, meta
 
 
 # ------------------------------------------------------------------------------------------------
@@ -725,21 +984,31 @@ def _chunks(seq, n):
 
 
 def scaled_configs(ctx):
-    """(K, own id, depth, alphabet).  Two alphabets: 'full' = every operation of the design; 'table' = add /
-    re-add / remove with the three probe outcomes only (no liveness reports, no clock) explored deeper."""
+    """(K, own id, depth, alphabet).  Two alphabets per (K, own id): 'full' = every operation of the design;
+    'table' = add / re-add / remove with the three probe outcomes only (no liveness reports, no clock),
+    explored deeper."""
     q = ctx.quick
     cfgs = []
     for K in (2, 3):
         for oi, own in enumerate(OWN_IDS):
             main = oi == 2          # the sha384 own id carries the deepest bound (ids != distances there)
             if q:
-                d_full, d_table = (4 if main else 3), (4 if main else 4)
+                d_full, d_table = (4 if main else 3), (4 if (main or K == 2) else 3)
             else:
-                d_full = (5 if main else 4)
-                d_table = (6 if K == 2 else 5) if main else 5
+                d_full = ((6 if K == 2 else 5) if main else 4)
+                d_table = ((7 if K == 2 else 6) if main else 5)
             cfgs.append({'name': f'K{K}-own{oi}-full', 'K': K, 'own': own, 'env': True, 'reports': 'members',
-                         'depth': d_full})
-            cfgs.append({'name': f'K{K}-own{oi}-table', 'K': K, 'own': own, 'env': False, 'depth': d_table})
+                         'depth': d_full, 'group': (K, oi)})
+            cfgs.append({'name': f'K{K}-own{oi}-table', 'K': K, 'own': own, 'env': False, 'depth': d_table,
+                         'group': (K, oi)})
+            if main:
+                # 'evict': the contacts of the far half (a bucket that is never split once full) plus one
+                # contact of the near half, with every liveness report and clock operation, explored deeper -
+                # the eviction policy needs K+1 adds and several reports before it shows
+                subset = [0, 1, 2, 3] if K == 2 else [0, 1, 2, 10, 3]
+                d_evict = 6 if q else (8 if K == 2 else 7)
+                cfgs.append({'name': f'K{K}-own{oi}-evict', 'K': K, 'own': own, 'env': True, 'reports': 'members',
+                             'subset': subset, 'depth': d_evict, 'group': (K, oi)})
     return cfgs
 
 
@@ -754,18 +1023,51 @@ def run(ctx):
         shutil.rmtree(scratch, ignore_errors=True)
 
 
+def history_ops(cfg, h, kind):
+    if kind == 'R':
+        return [tuple(o) for o in h]
+    ops = cfg_ops(cfg)
+    return [ops[i] for i in h]
+
+
+def _needs_queries(sig):
+    return sig.get('kind') in ('closest', 'get-peer') or sig.get('op') in ('get_peer', 'find_close_peers')
+
+
+def minimise(cfg, hops, sig):
+    """greedy drop-one-operation pass: keep a shorter history while it still yields the same signature"""
+    hops = list(hops)
+    budget = 400
+    i = len(hops) - 1
+    q = 'every' if _needs_queries(sig) else 'none'
+    while i >= 0 and budget > 0 and len(hops) > 1:
+        cand = hops[:i] + hops[i + 1:]
+        budget -= 1
+        step, bad = first_violations(cfg, cand, queries=q, all_senders=cfg['K'] < 8)
+        if step is not None and any(s == sig for s, _ in bad):
+            hops = cand[:step]
+            i = min(i, len(hops)) - 1
+        else:
+            i -= 1
+    return hops
+
+
 def _run(ctx, scratch):
     res = ctx.res
     cfgs = scaled_configs(ctx)
-    chunk = 24 if ctx.quick else 48
+    chunk = 16 if ctx.quick else 40
     state = {}
+    gtables = collections.defaultdict(set)     # (K, own id) -> table configurations already given to part Q
     for ci, cfg in enumerate(cfgs):
         ex = Exec(cfg['K'], cfg['own'], cfg_contacts(cfg))
         fd, td = ex.digests()
         ex.close()
-        state[ci] = {'seen': {fd}, 'tables': {td}, 'frontier': [()], 'newtables': [()], 'levels': [1],
-                     'first': (), 'last': ()}
-    all_viols = []       # (length, cfg index, history, sig, what, part)
+        state[ci] = {'seen': {fd}, 'frontier': [((), fd)], 'newtables': [], 'levels': [1],
+                     'first': None, 'last': None}
+        if td not in gtables[cfg['group']]:
+            gtables[cfg['group']].add(td)
+            state[ci]['newtables'].append(())
+    all_viols = []       # (length, order, history, sig, what, kind, cfg)
     counter = [0]
 
     def outpath():
@@ -773,7 +1075,6 @@ def _run(ctx, scratch):
         return os.path.join(scratch, f'o{counter[0]}.pkl')
 
     maxdepth = max(c['depth'] for c in cfgs)
-    # part R items ride along with the first BFS round
     real_items, real_meta = real_items_for(ctx, outpath)
     for level in range(maxdepth + 1):
         items = []
@@ -783,22 +1084,23 @@ def _run(ctx, scratch):
                 for part in _chunks(st['frontier'], chunk):
                     items.append(('X', cfg, part, outpath(), ci))
             if st['newtables']:
-                for part in _chunks(st['newtables'], 8):
+                for part in _chunks(st['newtables'], 6):
                     items.append(('Q', cfg, part, outpath(), ci))
                 st['newtables'] = []
         if level == 0:
-            items += real_items
+            items += real_items      # part R rides along with the first (tiny) BFS round
         if not items:
             break
-        ctx.pmap(w_item_wrapped, [it[:4] for it in items])
+        # longest items first for load balance; results are read back in the original (canonical) order
+        order = sorted(range(len(items)), key=lambda i: (items[i][0] != 'R', items[i][0] != 'X'))
+        ctx.pmap(w_item, [items[i][:4] for i in order])
         new_frontier = {ci: [] for ci in state}
-        for it in items:
-            kind, cfg, part, path, ci = it
+        for kind, cfg, part, path, ci in items:
             with open(path, 'rb') as f:
                 succ, viols = pickle.load(f)
             os.remove(path)
             for ln, h, sig, what in viols:
-                all_viols.append((ln, ci if kind != 'R' else len(cfgs) + ci, h, sig, what, kind, cfg))
+                all_viols.append((ln, ci + (1000 if kind == 'R' else 0), h, sig, what, kind, cfg))
             if kind != 'X':
                 continue
             st = state[ci]
@@ -806,90 +1108,105 @@ def _run(ctx, scratch):
                 if fd in st['seen']:
                     continue
                 st['seen'].add(fd)
-                nh = part[hi] + (oi,)
-                new_frontier[ci].append(nh)
-                if td not in st['tables']:
-                    st['tables'].add(td)
+                nh = part[hi][0] + (oi,)
+                new_frontier[ci].append((nh, fd))
+                if td not in gtables[cfg['group']]:
+                    gtables[cfg['group']].add(td)
                     st['newtables'].append(nh)
         for ci, st in state.items():
             if level < cfgs[ci]['depth']:
                 st['frontier'] = new_frontier[ci]
                 st['levels'].append(len(new_frontier[ci]))
                 if new_frontier[ci]:
-                    st['last'] = new_frontier[ci][-1]
-                    if not st['first']:
-                        st['first'] = new_frontier[ci][0]
+                    st['last'] = new_frontier[ci][-1][0]
+                    if st['first'] is None:
+                        st['first'] = new_frontier[ci][0][0]
             else:
                 st['frontier'] = []
 
     # ---- bookkeeping -----------------------------------------------------------------------------
-    total_states = 0
     per_cfg = {}
+    groups = collections.defaultdict(set)
     for ci, cfg in enumerate(cfgs):
         st = state[ci]
-        total_states += len(st['seen'])
-        per_cfg[cfg['name']] = {'depth': cfg['depth'], 'states': len(st['seen']), 'tables': len(st['tables']),
-                                'states_per_level': st['levels']}
-        for td in st['tables']:
-            res.distinct_add('nontrivial', (cfg['name'], td))
-    res.count('states', total_states)
+        groups[cfg['group']] |= st['seen']
+        per_cfg[cfg['name']] = {'depth': cfg['depth'], 'states': len(st['seen']),
+                                'new_states_per_level': st['levels']}
+    for g, tds in gtables.items():
+        per_cfg[f'K{g[0]}-own{g[1]}'] = {'distinct_states_all_alphabets': len(groups[g]),
+                                         'table_configurations_queried': len(tds)}
+        for td in tds:
+            res.distinct_add('nontrivial', (g, td))
+    res.count('states', sum(len(s) for s in groups.values()))
 
-    # violations: simplest first, so that the kept representative of every signature is the shortest
-    all_viols.sort(key=lambda v: (v[0], v[1], repr(v[2])))
-    reported = set()
-    for ln, ci, h, sig, what, kind, cfg in all_viols:
+    # violations: simplest first, so that the kept representative of every signature is the shortest;
+    # the representative is re-confirmed from scratch and minimised (drop-one-operation)
+    all_viols.sort(key=lambda v: (v[0], v[1], v[2]))
+    confirmed = {}
+    for ln, _, h, sig, what, kind, cfg in all_viols:
         hops = history_ops(cfg, h, kind)
+        key = repr(sorted(sig.items()))
+        if key not in confirmed:
+            step, bad = first_violations(cfg, hops, queries='every' if _needs_queries(sig) else 'none')
+            res.count('determinism_replays')
+            if step is None or not any(s == sig for s, _ in bad):
+                res.error(f'violation {sig} of {cfg["name"]} after {fmt_ops(hops)} did not reproduce from scratch '
+                          f'(got step {step}: {[s for s, _ in bad]})')
+                confirmed[key] = hops
+            else:
+                confirmed[key] = minimise(cfg, hops[:step], sig) if len(hops) > 6 else hops[:step]
+            hops = confirmed[key]
         res.violation(sig, f'[{cfg["name"]}] after {len(hops)} op(s) {fmt_ops(hops)}: {what}',
                       replay_data(cfg, hops, kind))
-        reported.add(repr(sig))
 
-    # determinism self-check: first, last and every violating history (first of each signature) twice
+    # determinism self-check: first and last discovered history of every configuration, twice, from scratch
     todo = []
     for ci, cfg in enumerate(cfgs):
         st = state[ci]
         for h in (st['first'], st['last']):
-            todo.append((cfg, history_ops(cfg, h, 'X')))
-    seen_sig = set()
-    for ln, ci, h, sig, what, kind, cfg in all_viols:
-        if repr(sig) not in seen_sig:
-            seen_sig.add(repr(sig))
-            todo.append((cfg, history_ops(cfg, h, kind)))
-    for cfg, hops in todo[:64]:
+            if h is not None:
+                todo.append((cfg, history_ops(cfg, h, 'X')))
+    k8 = {'name': 'K8-own2', 'K': 8, 'own': OWN_IDS[2], 'real': True}
+    todo.append((k8, real_default()))
+    for cfg, hops in todo:
         a = observe(cfg, hops)
         b = observe(cfg, hops)
         res.count('determinism_replays', 2)
         if a != b:
-            res.error(f'determinism self-check failed for {cfg["name"]} {hops}')
+            res.error(f'determinism self-check failed for {cfg["name"]} {fmt_ops(hops)}')
 
     # samples: 3 shortest + 3 longest traces
-    main = max(range(len(cfgs)), key=lambda i: len(state[i]['seen']))
-    for cfg, hops in todo[:3]:
-        res.sample({'config': cfg['name'], 'history': fmt_ops(hops), 'observation': observe(cfg, hops)[-1]})
-    for ci in sorted(state, key=lambda i: -cfgs[i]['depth'])[:3]:
-        if state[ci]['last']:
-            hops = history_ops(cfgs[ci], state[ci]['last'], 'X')
-            res.sample({'config': cfgs[ci]['name'], 'history': fmt_ops(hops),
-                        'observation': observe(cfgs[ci], hops)[-1]}, force=True)
+    short = [t for t in todo if len(t[1]) == 1][:3]
+    longest = sorted(todo[:-1], key=lambda t: -len(t[1]))[:3]
+    for cfg, hops in short + longest:
+        res.sample({'config': cfg['name'], 'history': fmt_ops(hops), 'final': observe(cfg, hops)[-1]}, force=True)
 
-    bounds = {'scaled': {c['name']: c['depth'] for c in cfgs}, 'real_K8': real_meta}
     ctx.meta.update(
-        rule=('S: every history of length <= depth over the operation alphabet (13 contacts x add with probe '
-              'outcome alive/timeout/remote-error, remove, report_last_replied / report_failure per address of a '
-              'current member, clock +61 s / +721 s), deduplicated on the canonical state (bucket ranges, ordered '
-              'bucket contents, liveness-record ages); two alphabets per (K, own id): full and table-only '
-              '(deeper). Q: every distinct table configuration reached x (every alphabet id, +-1) keys x counts '
-              '{None,1,K,K+1} x senders {none, every member, one non-member}. R: K=8 default fill (32 adds over 5 '
-              'prefix classes) and every history within d single-operation edits of it. Non-trivial/distinct = '
-              'distinct table configurations (bucket ranges + ordered contents) per configuration.'),
+        rule=('S: every history of length <= depth over the operation alphabet (13 contacts: 10 boundary '
+              'distances incl. midpoint-1 (two of them on one IP with different ports), one new id at a known '
+              'address, one known id at a new address, one known id at another contact\'s address; add with '
+              'probe outcome alive / timeout / remote error (re-add = add of a member), remove, '
+              'report_last_replied / report_failure per address of a current member, report_last_replied for all '
+              'members at once, clock +61 s / +721 s), deduplicated on the canonical state (bucket ranges, ordered '
+              'bucket contents, liveness-record ages); up to three alphabets per (K, own id): full, table-only (no '
+              'reports / clock; deeper) and evict (far-half contacts + one near contact with all reports and '
+              'clock; deepest); states = distinct canonical states per (K, own id), union over its alphabets. '
+              'Q: every distinct table configuration reached x (every alphabet id, +-1, own id, 0, 2^384-1) keys '
+              'x counts {None,1,K,K+1} x senders {none, every member, one non-member}, and get_peer for every '
+              'alphabet id. R: K=8 default fill (32 adds over 5 prefix classes) and every history within d '
+              'single-operation edits (substitute probe outcome, delete, insert remove / report / clock / '
+              'colliding newcomer) of it, plus the scaled counterexamples lifted to K=8. '
+              'Non-trivial/distinct = distinct table configurations (bucket ranges + bucket member sets) per (K, '
+              'own id). traces = one per transition (prefix shared through deep copies of the real objects); '
+              'scratch_replays counts the from-scratch replays.'),
         exhaustive=True,
-        bounds=bounds,
+        bounds={'scaled_depth': {c['name']: c['depth'] for c in cfgs}, 'real_K8': real_meta},
         bound_completed={'per_config': per_cfg, 'real_K8': real_meta},
         assumptions=[
             'routing-table operations are sequential (KademliaProtocol serialises them under _split_lock); '
             'the probe is a coroutine that suspends once and then answers alive / TimeoutError / RemoteException '
             'for whichever contact is pinged',
-            'liveness reports are issued only for addresses that currently have a table member (reports about '
-            'non-members commute with every operation up to the next add of that contact)',
+            'liveness reports are issued only for addresses that currently have a table member',
             'virtual clock starts at 1e6 s (a real monotonic clock is never 0.0); time passes only through the '
             'clock operations (+61 s crosses the 60 s "recently replied" window, +721 s crosses '
             'CHECK_REFRESH_INTERVAL = 720 s)',
@@ -898,104 +1215,28 @@ def _run(ctx, scratch):
             'interpretation: a same-id add from a new address is a contact update, not a newcomer; a newcomer '
             'may displace the contact that holds its own address; find_close_peers(count=n) is held to the n '
             'nearest (count=None: K)',
-            'ordinary (non-bootstrap) node: is_bootstrap_node=False',
+            'ordinary (non-bootstrap) node: is_bootstrap_node=False; contact ids never equal the own id '
+            '(KademliaProtocol.add_peer refuses it before the table sees it)',
         ],
-        expected_witnesses=['split', 'join', 'join_both_neighbours', 'ping_eviction', 'ping_eviction_remote_error',
-                            'ping_alive_newcomer_refused', 'refused_without_probe_recent_reply', 're_add',
-                            'same_id_new_address_update', 'same_address_purge', 'remove_member',
-                            'k8_split', 'k8_join', 'k8_join_both_neighbours', 'k8_ping_eviction'],
+        expected_witnesses=['split', 'join', 'join_both_neighbours', 'split_chain_100_deep', 'ping_eviction',
+                            'ping_eviction_remote_error', 'ping_alive_newcomer_refused',
+                            'refused_without_probe_recent_reply', 're_add', 'same_id_new_address_update',
+                            'same_address_purge', 'remove_member',
+                            'k8_split', 'k8_join', 'k8_join_both_neighbours', 'k8_ping_eviction',
+                            'k8_ping_alive_newcomer_refused'],
     )
 
 
-def w_item_wrapped(item, res):
-    w_item(item, res)
-
-
-def real_items_for(ctx, outpath):
-    thorough = not ctx.quick
-    items = []
-    meta = {'K': 8, 'default_history_ops': None, 'max_edits': 2 if thorough else 1, 'histories': 0,
-            'own_ids': 3 if ctx.quick else 3}
-    for oi, own in enumerate(OWN_IDS):
-        contacts = real_contacts(own)
-        cfg = {'name': f'K8-own{oi}', 'K': 8, 'own': own, 'contacts': contacts}
-        default, idx = real_default(contacts)
-        meta['default_history_ops'] = len(default)
-        edits = real_edits(contacts, default, idx, thorough)
-        sets = [()] + [(e,) for e in edits]
-        if thorough and oi == 2:
-            for i, e1 in enumerate(edits):
-                for e2 in edits[i + 1:]:
-                    if e1[0] == e2[0] and e1[1] != 'ins' and e2[1] != 'ins':
-                        continue     # two replacements of the same operation = one replacement
-                    sets.append((e1, e2))
-        meta['histories'] += len(sets)
-        meta.setdefault('single_edits', len(edits))
-        for part in _chunks(sets, 400 if thorough else 60):
-            items.append(('R', cfg, part, outpath(), oi))
-    return items, meta
-
-
-def history_ops(cfg, h, kind):
-    if kind == 'R':
-        return [tuple(o) for o in h]
-    ops = cfg_ops(cfg)
-    return [ops[i] for i in h]
-
-
-def fmt_ops(hops):
-    out = []
-    for o in hops:
-        if o[0] == 'add':
-            out.append(f'add(c{o[1]},{ {"a": "alive", "t": "timeout", "e": "error"}[o[2]] })')
-        elif o[0] == 'rm':
-            out.append(f'rm(c{o[1]})')
-        elif o[0] == 'clk':
-            out.append(f'clk(+{o[1]})')
-        else:
-            out.append(f'{o[0]}(addr{o[1]})')
-    return ' '.join(out)
-
-
-def observe(cfg, hops):
-    """observation log of one history (for the determinism self-check, samples and replays)"""
-    ex = Exec(cfg['K'], cfg['own'], cfg_contacts(cfg))
-    log = []
-    for op in hops:
-        rec = ex.apply(op)
-        log.append(f'{fmt_ops([op])} -> result={rec.result!r} exc={type(rec.exc).__name__ if rec.exc else None} '
-                   f'probed={[ex.index[p] for p in rec.probed]} '
-                   f'buckets={[(hex(lo)[:9], hex(hi)[:9], [ex.index[p] for p in ps]) for lo, hi, ps in rec.snap]}')
-        if rec.exc is not None:
-            break
-    ex.close()
-    return log or ['(empty history)']
-
-
 def replay(data):
-    from vf.core import Result
     cfg = {'name': 'replay', 'K': int(data['K']), 'own': data['own'],
            'contacts': [tuple(c) for c in data['contacts']]}
     hops = [tuple(o) for o in data['ops']]
-    res = Result()
-    ex = Exec(cfg['K'], cfg['own'], cfg_contacts(cfg))
-    log = [f"K={cfg['K']} own={cfg['own'][:12]}.. contacts: distance from own id / address"]
+    log = [f"K={cfg['K']} own={cfg['own'][:12]}.. contacts (distance from own id @ address):"]
     o = int(cfg['own'], 16)
     for i, (n, a, p) in enumerate(cfg['contacts']):
         log.append(f'  c{i}: d={hex(int(n, 16) ^ o)} @ {a}:{p}')
-    bad = []
-    for step, op in enumerate(hops):
-        rec = ex.apply(op)
-        log.append(f'{step + 1}. ' + fmt_ops([op]) + f' -> result={rec.result!r} '
-                   f'exc={rec.exc!r} probed={[ex.index[p] for p in rec.probed]}')
-        for lo, hi, ps in rec.snap:
-            log.append(f'      [{hex(lo)}, {hex(hi)}) {[ex.index[p] for p in ps]}')
-        bad = judge(ex, rec, res.tally)
-        if not bad:
-            bad = state_oracle(ex, lambda: None)
-        if bad:
-            break
-    ex.close()
+    log += observe(cfg, hops)
+    step, bad = first_violations(cfg, hops)
     for sig, what in bad:
-        log.append(f'VIOLATED: {what}   signature={sig}')
+        log.append(f'VIOLATED after operation {step}: {what}   signature={sig}')
     return bool(bad), '\n'.join(log)
